@@ -48,7 +48,10 @@ def gen_system(rng, feat):
         cap = rng.choice([1, 2, 2, 3])
         nrows = rng.choice([1, 2, 3])
         rectime = 1 if (feat["clock"] and rng.random() < 0.5) else 0
-        lines.append("PROC %d %d %d %d %d %d" % (p, placement[p], cap, rectime, 0, nrows))
+        # flags: bit 0 = record the clock, bit 1 = stateless (relay / watchdog style process whose state and outbox
+        # never change: only its bookkeeping - event log, counters, pending timers - does)
+        stateless = 2 if (feat.get("stateless") and rng.random() < 0.6) else 0
+        lines.append("PROC %d %d %d %d %d %d" % (p, placement[p], cap, rectime | stateless, 0, nrows))
         for _ in range(nrows):
             k = rng.choice([0, 1, 1, 2, 2, 3])
             acts = [gen_action(rng, nprocs, nnames, feat) for _ in range(k)]
@@ -90,6 +93,7 @@ def gen_features(rng):
         "crash": rng.random() < 0.2,
         "netops": rng.random() < 0.25,
         "mf": rng.random() < 0.2,
+        "stateless": rng.random() < 0.3,
     }
 
 
@@ -158,6 +162,8 @@ def gen_base(rng, feat=None):
 
 def variant(base, sid, strategy, vm, debug=0, repeat=1, depth_prune=None):
     preds = list(base["preds"])
+    if base["feat"].get("stateless") and depth_prune is None:
+        depth_prune = 5        # stateless processes can exchange messages forever: bound the exploration by depth
     if depth_prune is not None:
         preds = [l for l in preds if not l.startswith("PRED PRUNE")] + ["PRED PRUNE DEPTHGT %d" % depth_prune]
     lines = list(base["sys"]) + preds
@@ -173,6 +179,8 @@ def staged(rng, base, sid, strategy, vm, debug=1):
                        "PRED COLLECT OUTBOXEQ %d 1" % rng.randrange(base["nprocs"]),
                        "PRED COLLECT NOEVENTS"])
     goal1 = rng.choice(["PRED GOAL NOEVENTS", "PRED GOAL DEPTHGE %d" % rng.choice([2, 3])])
+    if base["feat"].get("stateless"):
+        preds1 = [l for l in preds1 if not l.startswith("PRED PRUNE")] + ["PRED PRUNE DEPTHGT 5"]
     lines = list(base["sys"]) + preds1 + [coll, goal1] + list(base["cb"])
     lines.append("RUN %s %s %d %d" % (strategy, vm, debug, FUEL))
     # stage 2
